@@ -33,6 +33,21 @@ pub fn dispatch(engine: &str, cfg: &Cfg) -> i32 {
         "c14" => c14::run(cfg),
         "c15" => c15::run(cfg),
         "c20" => c20::run(cfg),
+        "c19-child" => {
+            // minimal child for the atomic-output checks: the real file-to-file entry point
+            let mut symbols = std::collections::HashMap::new();
+            let dirs: Vec<String> = cfg.rest.iter().skip(2).cloned().collect();
+            match chialisp::classic::clvm_tools::clvmc::compile_clvm(&cfg.rest[0], &cfg.rest[1], &dirs, &mut symbols) {
+                Ok(p) => {
+                    println!("OK {p}");
+                    0
+                }
+                Err(e) => {
+                    println!("ERR {e}");
+                    3
+                }
+            }
+        }
         "cc" => {
             // vh cc FILE [-O] [args-text]: compile a source file the CLI way and optionally run it
             let text = std::fs::read_to_string(&cfg.rest[0]).expect("read");
